@@ -374,7 +374,7 @@ pub fn run_case(
             let mut in_handler = false;
             for st in &sc.main {
                 if let StmtKind::Label(l) = &st.kind {
-                    if l.eq_ignore_ascii_case("H1") {
+                    if l.eq_ignore_ascii_case("H1") || l.eq_ignore_ascii_case("H2") {
                         in_handler = true;
                     }
                 }
